@@ -4,6 +4,7 @@ package cmds
 
 import (
 	"fmt"
+	"os"
 	"path/filepath"
 	"sort"
 
@@ -225,7 +226,18 @@ func VerifC20_C_owners() {
 		}
 		return false
 	}
-	lines, fatal := runCmd("OwnersCmd", "/w/"+f)
+	// the file is named absolutely, or relative to the directory the command runs in
+	arg := "/w/" + f
+	switch sym.Choice("argument_form", 3) {
+	case 1:
+		_ = os.Chdir("/w")
+		arg = f
+	case 2:
+		_ = os.Chdir("/w/p")
+		arg = "../" + f
+	}
+	lines, fatal := runCmd("OwnersCmd", arg)
+	_ = os.Chdir("/w")
 	sym.Assert(!fatal, "C20.C3.owners-runs")
 	checkListing(lines, q, owns, "all", "C20.C3.owners")
 	sym.Reach("C20.C.owners")
